@@ -207,3 +207,39 @@ def lit_srcs(p, mapping, upto=None, norm=False):
                 s = "not (%s)" % s if isinstance(t, (ast.BoolOp, ast.Compare, ast.IfExp)) else "not " + s
             out.append(s)
     return out
+
+
+def exact_type_tests(tree, res, modules):
+    """[(module, node)] for every `type(x) is C`, `type(x) == C`, `type(x) in (...)` (and the negated forms) in *modules*:
+    a dispatch on the exact type rejects subclasses that isinstance() accepts."""
+    out = []
+    for name in modules:
+        mod = tree.modules.get(name)
+        if mod is None:
+            continue
+        for c in ast.walk(mod.tree):
+            if isinstance(c, ast.Compare) and len(c.ops) == 1 and isinstance(c.ops[0], (ast.Is, ast.IsNot, ast.Eq, ast.NotEq, ast.In, ast.NotIn)):
+                sides = [c.left] + list(c.comparators)
+                if any(isinstance(x, ast.Call) and res.call_canon(x) == "builtins.type" and len(x.args) == 1 for x in sides):
+                    other = [x for x in sides if not (isinstance(x, ast.Call) and res.call_canon(x) == "builtins.type")]
+                    if other and not (isinstance(other[0], ast.Call) and res.call_canon(other[0]) == "builtins.type"):
+                        out.append((mod, c))
+    return out
+
+
+def check_isinstance_dispatch(ctx, rule, modules, what):
+    hits = exact_type_tests(ctx.tree, ctx.res, modules)
+    for mod, c in hits:
+        fn = A.enclosing_func(c)
+        ctx.violation(rule, c, "`%s` in %s tests the exact type: an object of a subclass (%s) is not recognised here although the "
+                      "isinstance tests used everywhere else accept it, so two places of the framework disagree on what it is"
+                      % (A.short(c, 60), A.qualname(fn) if fn is not None else mod.name, what), construct="exact-type:%s" % A.short(c, 50))
+    n_inst = 0
+    for name in modules:
+        mod = ctx.tree.modules.get(name)
+        if mod is None:
+            continue
+        n_inst += sum(1 for c in ast.walk(mod.tree) if isinstance(c, ast.Call) and ctx.res.call_canon(c) == "builtins.isinstance")
+    if not hits:
+        ctx.ok(rule, (modules[0], "<module>"), "%d isinstance tests, no exact-type test, in %s" % (n_inst, ", ".join(modules)))
+    return n_inst
